@@ -1,6 +1,7 @@
 """C09 — cidr_partition / cidr_exclude split a block exactly around the excluded part.
 Ops (shared driver ops of Driver/Cidr.lean): partition N N ; exclude N N"""
 from common import Case, W, value_classes, rand_value, rand_block, plist
+import common
 from netaddr import IPNetwork, cidr_exclude
 from netaddr.ip import cidr_partition
 
@@ -89,8 +90,8 @@ def _show(n):
 
 def impl(c):
     op, ver, tv, tp, ev, ep = c.args
-    t = IPNetwork((tv, tp), version=ver)
-    e = IPNetwork((ev, ep), version=ver)
+    t = common.make_net(ver, tv, tp)
+    e = common.make_net(ver, ev, ep)
     if op == 'partition':
         b, mid, a = cidr_partition(t, e)
         return ' '.join(plist(_show(x) for x in l) for l in (b, mid, a))
